@@ -105,6 +105,14 @@ pub mod ext {
         ensures r == (if b { Some(t) } else { None::<T> });
     pub assume_specification<T, U, F: FnOnce(T) -> U> [Option::<T>::map_or] (o: Option<T>, default: U, f: F) -> (r: U)
         ensures match o { Some(x) => call_ensures(f, (x,), r), None => r == default };
+    pub assume_specification<T, E, U, F: FnOnce(T) -> U> [Result::<T, E>::map_or] (o: Result<T, E>, default: U, f: F) -> (r: U)
+        ensures match o { Ok(x) => call_ensures(f, (x,), r), Err(_) => r == default };
+    pub assume_specification<T, E> [Result::<T, E>::is_ok_and] (o: Result<T, E>, f: impl FnOnce(T) -> bool) -> (r: bool)
+        ensures match o { Ok(x) => call_ensures(f, (x,), r), Err(_) => !r };
+    pub assume_specification<T> [Option::<T>::is_some_and] (o: Option<T>, f: impl FnOnce(T) -> bool) -> (r: bool)
+        ensures match o { Some(x) => call_ensures(f, (x,), r), None => !r };
+    pub assume_specification<T> [Option::<T>::is_none_or] (o: Option<T>, f: impl FnOnce(T) -> bool) -> (r: bool)
+        ensures match o { Some(x) => call_ensures(f, (x,), r), None => r };
     // Cell: contents are opaque (DESIGN 1.4)
     // Two ghost predicates make calls on a Cell visible to contracts without modelling its contents (DESIGN 2.12):
     //  * cell_set_allowed(c, v): may-call side -- `set(c, v)` REQUIRES it; a function that owns the cell states in
